@@ -1,46 +1,17 @@
-use serde::{Deserialize, Serialize};
-#[derive(Serialize, Deserialize, Debug, PartialEq)]
-#[serde(rename = "r")]
-struct ListText {
-    #[serde(default)]
-    item: Vec<String>,
+use serde::Deserialize;
+#[derive(Debug, Deserialize, PartialEq)]
+struct A {
+    #[serde(rename = "@l")]
+    l: Vec<String>,
     #[serde(rename = "$text", default)]
-    t: String,
-}
-#[derive(Serialize, Deserialize, Debug, PartialEq)]
-#[serde(rename = "r")]
-struct TextList2 {
-    #[serde(rename = "$text", default)]
-    t: String,
-    #[serde(default)]
-    item: Vec<String>,
-}
-#[derive(Serialize, Deserialize, Debug, PartialEq)]
-#[serde(rename = "r")]
-struct ListNumText {
-    #[serde(default)]
-    item: Vec<u32>,
-    #[serde(rename = "$text", default)]
-    t: String,
-}
-#[derive(Serialize, Deserialize, Debug, PartialEq)]
-#[serde(rename = "r")]
-struct ElemText {
-    a: String,
-    #[serde(rename = "$text", default)]
-    t: String,
+    t: Vec<String>,
 }
 fn main() {
-    let v = ListText { item: vec!["a".into(), "b".into()], t: "tail".into() };
-    let x = quick_xml::se::to_string(&v).unwrap();
-    println!("{} -> {:?}", x, quick_xml::de::from_str::<ListText>(&x));
-    let v = TextList2 { t: "head".into(), item: vec!["a".into(), "b".into()] };
-    let x = quick_xml::se::to_string(&v).unwrap();
-    println!("{} -> {:?}", x, quick_xml::de::from_str::<TextList2>(&x));
-    let v = ListNumText { item: vec![1, 2], t: "tail".into() };
-    let x = quick_xml::se::to_string(&v).unwrap();
-    println!("{} -> {:?}", x, quick_xml::de::from_str::<ListNumText>(&x));
-    let v = ElemText { a: "x".into(), t: "tail".into() };
-    let x = quick_xml::se::to_string(&v).unwrap();
-    println!("{} -> {:?}", x, quick_xml::de::from_str::<ElemText>(&x));
+    let utf8 = "<?xml version=\"1.0\" encoding=\"windows-1251\"?><a l=\"альфа бета гамма дельта\">раз два три четыре</a>";
+    let plain = "<a l=\"альфа бета гамма дельта\">раз два три четыре</a>";
+    let r0: Result<A, _> = quick_xml::de::from_str(plain);
+    println!("utf8 from_str: {:?}", r0);
+    let (bytes, _, _) = encoding_rs::WINDOWS_1251.encode(utf8);
+    let r: Result<A, _> = quick_xml::de::from_reader(&bytes[..]);
+    println!("cp1251 from_reader: {:?}", r);
 }
